@@ -61,14 +61,17 @@ def build_container(canon, into=None):
     return c
 
 
-def build_message(canon):
+def build_message(canon, enum_type=True):
+    """enum_type: pass the message type as FMsg member when it is one (else as the plain string -
+    both spellings must behave the same)"""
     from asyncfix import FIXMessage, FMsg
 
     mt = txt(canon[0])
-    try:
-        mt = FMsg(mt)
-    except ValueError:
-        pass
+    if enum_type:
+        try:
+            mt = FMsg(mt)
+        except ValueError:
+            pass
     m = FIXMessage(mt)
     build_container(canon[1], into=m)
     return m
@@ -114,14 +117,16 @@ def codec():
     return _codec
 
 
-def impl_encode(canon_msg, sender, target, next_out, raw_seq):
+def impl_encode(canon_msg, sender, target, next_out, raw_seq, enum_type=None):
     from asyncfix.session import FIXSession
 
     s = FIXSession(1, target, sender)
     s.next_num_out = next_out
     s.next_num_in = 1
+    if enum_type is None:   # deterministic alternation: half of the cases use the plain string spelling
+        enum_type = (sum(canon_msg[0]) + len(canon_msg[1]) + next_out) % 2 == 0
     try:
-        m = build_message(canon_msg)
+        m = build_message(canon_msg, enum_type)
     except Exception as e:
         return [2, exc_code(e)]
     try:
